@@ -80,9 +80,10 @@ PROP = {
             "Frp.C19.update_changed_gone",
             "Frp.C19.update_running_cfgs",
             "Frp.C19.reload_dup_witness",
-            "Frp.C19.not_ReloadIdempotentFull",
+            "Frp.C19.not_ReloadIdempotentFull_old",
             "Frp.C19.reload_dup_runs_first",
-            "Frp.C19.reload_idempotent_partial",
+            "Frp.C19.reload_dup_fixed_witness",
+            "Frp.C19.reload_idempotent",
             "Frp.C19.updHoldsOn_of_UpdHolds",
             "Frp.C19.model_UpdHolds",
             "Frp.C19.healthHoldsOn_sound",
@@ -113,7 +114,8 @@ PROP = {
             "quiescence of the worker goroutines is observed through runtime.Stack",
             "TCP probes: only up/down/up with a real listener (htcp); the counting logic is exercised through HTTP probes",
             "goroutine interleavings of Stop with a concurrently running worker iteration are not enumerated (both take pw.mu)",
-            "visitor reload is compared against a small model in the engine (configured / running names) without theorems",
+            "visitor reload is compared against a small model in the engine (configured / running names) without theorems; "
+            "visitor.Manager.UpdateAll still starts the first and compares with the last entry of a duplicated visitor name",
         ],
     }
 
@@ -123,16 +125,18 @@ META = {
         "technique": "Lean 4 models of health counting, wrapper phase machine and reload diff; theorems by induction over all probe "
                      "histories / event sequences / reloads; differential correspondence with the real health.Monitor and "
                      "proxy.Manager/Wrapper; property predicates evaluated on the implementation's answers",
-        "text": "Proof (with two recorded findings). Health: the pinned monitor never resets failedTimes, so withdrawal happens after "
-                "maxFailed failures in total, not in a row (kernel-checked witness, reproduced on the real Monitor); for histories "
-                "whose failures are adjacent the fired callbacks are exactly the prescribed ones, and the repaired machine "
-                "(HealthFixed) satisfies the full statement withdraw_iff_consecutive. Wrapper: for every event sequence the status "
+        "text": "Proof (two findings, both repaired in /repo: 75a9f5a and eab68f8). Health: the pinned monitor never reset failedTimes, so "
+                "withdrawal happened after maxFailed failures in total, not in a row (kernel-checked witness, reproduced on the real "
+                "Monitor before the fix); the machine as it is now (HealthFixed) satisfies the full statement withdraw_iff_consecutive. Wrapper: for every event sequence the status "
                 "moves only along legal edges, a stopped wrapper sends nothing and accepts nothing, work connections are handed "
                 "over iff running, a start error is retried exactly after the back-off and is never absorbing, nothing is "
                 "registered before the first successful probe, status and the server's view stay in step. Reload: running names = "
                 "configured names, unchanged entries keep the same wrapper object with no message, removed/changed ones get exactly "
-                "one CloseProxy, added ones exactly one NewProxy (none if health-gated); identical reload is a no-op for consistent "
-                "configurations and is NOT for a name configured twice with different contents (witness, reproduced).",
+                "one CloseProxy, added ones exactly one NewProxy (none if health-gated), every running wrapper carries the configured "
+                "(last) entry of its name, and reloading the loaded configuration is a no-op for EVERY configuration list "
+                "(reload_idempotent). Before fix eab68f8 a name configured twice with different contents was stopped and "
+                "re-registered on every identical reload (witness reload_dup_witness about updateAllOld, reproduced on the real "
+                "Manager before the fix).",
         "note": "Trusted: Lean kernel; the hand-written models and the correspondence harness. Not covered: real-time behaviour beyond "
                 "two scenarios, TCP probe timeouts, visitor restart loop (keepVisitorsRunning), Stop racing a worker iteration.",
     }
